@@ -227,6 +227,9 @@ func (s *SoftwrapScanner) Scan(ctx vxfw.DrawContext) bool {
 			s.rest = append(s.rest, trSpace...)
 			// Append the rest...
 			s.rest = append(s.rest, rest...)
+			// The new rest no longer starts where state was computed,
+			// restart the segmenter
+			s.state = -1
 			return true
 		}
 
